@@ -1,5 +1,6 @@
 SPECIFICATION Spec
 CONSTANTS
+  GridN = 40
   MaxSmall = 4
   BigSizes = {19999, 20000, 20001, 25000, 30000}
 CHECK_DEADLOCK FALSE
